@@ -373,8 +373,16 @@ class World:
                 env[p.arg] = ex.eval(d, fr0)
             else:
                 ex.throw("TypeError", node, origin="call-arity")
+        star = kwargs.pop("__star_args__", None) if isinstance(kwargs, dict) else None
         if a.vararg:
-            env[a.vararg.arg] = VTup(args[len(params):])
+            if star is not None:
+                if len(args) > len(params):
+                    raise Unsupported("positional extras together with a symbolic *sequence")
+                env[a.vararg.arg] = VSeq("tuple", star.arr, star.n)
+            else:
+                env[a.vararg.arg] = VTup(args[len(params):])
+        elif star is not None:
+            raise Unsupported("symbolic *sequence passed to a function without *args")
         if a.kwarg:
             extra = {k: v for k, v in kwargs.items() if k not in params and k not in [p.arg for p in a.kwonlyargs]}
             env[a.kwarg.arg] = VDict([(k, (z3.BoolVal(True), v)) for k, v in extra.items()])
